@@ -964,7 +964,7 @@ def json_row(rep, lib):
     def model(c, av, envv, pe):
         n = c.name or ""
         cal = c.callee or ""
-        if n.endswith("String::new"):
+        if n.endswith("String::new") or n.endswith("String::with_capacity"):
             return (True, ("sbuf", ()))
         if cal.startswith("output_style::Print::print") and len(av) >= 2:
             cur = pe._deref_all(envv, av[1])
@@ -988,26 +988,50 @@ def json_row(rep, lib):
             return None
         if is_write_fmt(c) or cal.endswith("Write::write_all") or cal.endswith("Write::write"):
             site = fmt_site(lib, c)
+            wrote = []
             if site is None:
-                out.append("?")
+                wrote.append("?")
             else:
                 args = [v for (ln, col, v) in pending if ln == c.loc.get("line") and col == c.loc.get("col")]
                 for p_ in site["pieces"]:
                     if "lit" in p_:
-                        out.append("lit:%r" % p_["lit"])
+                        wrote.append("lit:%r" % p_["lit"])
                     elif p_["ph"] == "Display" and not p_["width"] and not p_["precision"] and p_["arg"] < len(args):
-                        out.extend(toks(args[p_["arg"]]))
+                        wrote.extend(toks(args[p_["arg"]]))
                     else:
-                        out.append("?")
+                        wrote.append("?")
+            envv[OUTK] = envv.get(OUTK, ("out",)) + tuple(wrote)     # what this path has written so far
             del pending[:]
             return (True, OK(UNIT))
         if n == "processor::Context::build":
             return (True, ("tok", "built"))
         return None
+    OUTK = -31
     pe = PE(b, model, eq_ok=common.derived_eq_ok(lib), max_states=20000)
+    seqs = []
+
+    def hook(bb, e, first):
+        if b.term(bb)["k"] == "return":
+            v0 = e.get(0)
+            if not (v0 is not None and v0[0] == "adt" and v0[1] == 1):
+                seqs.append(list(e.get(OUTK, ("out",))[1:]))
+        return None
+    pe.visit_hook = hook
     res = pe.run(env={1: ("rv", ("adt", 0, tuple(selfv)))})
     okret = [v for _, v in res.returns if v is not None and v[0] == "adt" and v[1] == 0]
-    if res.forks:
+    distinct = []
+    for q in seqs:
+        if q not in distinct:
+            distinct.append(q)
+    out = distinct[0] if len(distinct) == 1 else (distinct or [[]])[0]
+    if len(distinct) > 1:
+        out = ["?differs-by-path: %s" % distinct[:3]]
+    hint_sw = set()
+    for k, (bounded, sws) in common.hint_fields(lib, "output_style::JsonProcess").items():
+        hint_sw |= sws.get(b.name, set())
+    forks = [x for x in res.forks if x not in hint_sw]
+    if forks:
+        res.forks = forks
         r.bad("JsonProcess::process/row", "what is written depends on something other than the row (fork at bb%d): "
               "unrecognised idiom" % res.forks[0], b.where())
     elif out != ["V", "L"] or not okret:
